@@ -25,6 +25,7 @@ func ruleValCons(c *Ctx) {
 	type site struct {
 		fn, clause string
 		pos        token.Pos
+		lparen     token.Pos
 	}
 	var sites []site
 	clauseOf := func(pos token.Pos) string {
@@ -47,7 +48,7 @@ func ruleValCons(c *Ctx) {
 			if f, ok := info.Uses[call.Fun.(*ast.Ident)].(*types.Func); !ok || f.Pkg() != p.Types {
 				return true
 			}
-			sites = append(sites, site{declName(fd), clauseOf(call.Pos()), call.Pos()})
+			sites = append(sites, site{declName(fd), clauseOf(call.Pos()), call.Pos(), call.Lparen})
 			return true
 		})
 	}
@@ -73,6 +74,12 @@ func ruleValCons(c *Ctx) {
 		case allowedFn[s.fn] != "":
 			seenFn[s.fn]++
 			c.ok(key, s.pos, "producer of input-derived values: %s", allowedFn[s.fn])
+		case numStrProducerOf(c, s.fn, s.lparen, allowedFn) != "":
+			// the text comes in through a parameter, and at every call the argument is what a producer returned: the
+			// construction belongs to that producer (its pieces are stored by a helper of their own)
+			pr := numStrProducerOf(c, s.fn, s.lparen, allowedFn)
+			seenFn[pr]++
+			c.ok(key, s.pos, "the text constructed here is, at every call of %s, the result of %s: %s", s.fn, pr, allowedFn[pr])
 		default:
 			c.bad(key, s.pos, "numStr (numeric-string constructor) is used in %s %s, which is not one of the producers of input-derived values: a computed or constant value would compare numerically when it should compare as a string", s.fn, s.clause)
 		}
@@ -141,6 +148,15 @@ func ruleValCons(c *Ctx) {
 					}
 					if name == "numStr" || name == "setLine" || name == "setField" {
 						return true
+					}
+					// a helper of the interpreter that hands its string parameter on to one of those and does nothing
+					// else with it
+					if f := calleeOf(info, call); f != nil {
+						for ai, a := range call.Args {
+							if a == ast.Expr(id) && lineForwarder(c, info, f, ai, 0) {
+								return true
+							}
+						}
 					}
 					bad = name + "(line)"
 					return true
@@ -617,4 +633,189 @@ func ruleNumParse(c *Ctx) {
 	c.check(!convDiscards || recAccepts, "numparse:range", rec.Pos(),
 		"a value out of float64's range is a number (infinity) on both sides",
 		"parseFloatPrefix turns an out-of-range numeral into infinity (it discards ParseFloat's error) but parseFloat rejects it (no branch clears the error when it is strconv.ErrRange): the field 1e400 compares as a string yet is inf in arithmetic")
+}
+
+// lineForwarder: parameter number argIdx of the package function f is used only as an argument of numStr, setLine,
+// setField or of another such forwarder.
+func lineForwarder(c *Ctx, info *types.Info, f *types.Func, argIdx int, depth int) bool {
+	if depth > 2 || f.Pkg() == nil || f.Pkg() != c.pkg("interp").Types {
+		return false
+	}
+	var fd *ast.FuncDecl
+	for _, d := range c.allFuncDecls("interp") {
+		if info.Defs[d.Name] == types.Object(f) {
+			fd = d
+		}
+	}
+	if fd == nil || fd.Body == nil {
+		return false
+	}
+	var prm types.Object
+	i := 0
+	for _, fl := range fd.Type.Params.List {
+		for _, nm := range fl.Names {
+			if i == argIdx {
+				prm = info.Defs[nm]
+			}
+			i++
+		}
+	}
+	if prm == nil {
+		return false
+	}
+	okAll, uses := true, 0
+	var stack []ast.Node
+	ast.Inspect(fd.Body, func(n ast.Node) bool {
+		if n == nil {
+			stack = stack[:len(stack)-1]
+			return true
+		}
+		stack = append(stack, n)
+		id, ok := n.(*ast.Ident)
+		if !ok || info.Uses[id] != prm {
+			return true
+		}
+		uses++
+		if len(stack) >= 2 {
+			if call, ok := stack[len(stack)-2].(*ast.CallExpr); ok {
+				name := ""
+				switch fx := call.Fun.(type) {
+				case *ast.Ident:
+					name = fx.Name
+				case *ast.SelectorExpr:
+					name = fx.Sel.Name
+				}
+				if name == "numStr" || name == "setLine" || name == "setField" {
+					return true
+				}
+				if g := calleeOf(info, call); g != nil {
+					for ai, a := range call.Args {
+						if a == ast.Expr(id) && lineForwarder(c, info, g, ai, depth+1) {
+							return true
+						}
+					}
+				}
+			}
+		}
+		okAll = false
+		return true
+	})
+	return okAll && uses > 0
+}
+
+// numStrProducerOf: the numStr call at lparen in function fnName takes its argument from (an element of) a parameter,
+// and every static call of that function passes, for that parameter, the result of a call of one and the same
+// function listed in producers: that function's name, else "".
+func numStrProducerOf(c *Ctx, fnName string, lparen token.Pos, producers map[string]string) string {
+	fn := c.ssaFunc("interp", fnName)
+	if fn == nil {
+		return ""
+	}
+	var arg ssa.Value
+	allInstrs(fn, func(in ssa.Instruction) {
+		if call, ok := in.(*ssa.Call); ok && call.Pos() == lparen && len(call.Call.Args) == 1 {
+			arg = call.Call.Args[0]
+		}
+	})
+	if arg == nil {
+		return ""
+	}
+	var toParam func(v ssa.Value, d int) *ssa.Parameter
+	toParam = func(v ssa.Value, d int) *ssa.Parameter {
+		if d > 6 {
+			return nil
+		}
+		switch x := v.(type) {
+		case *ssa.Parameter:
+			return x
+		case *ssa.UnOp:
+			if x.Op == token.MUL {
+				if ia, ok := x.X.(*ssa.IndexAddr); ok {
+					return toParam(ia.X, d+1)
+				}
+			}
+		case *ssa.Slice:
+			return toParam(x.X, d+1)
+		case *ssa.Phi:
+			var p *ssa.Parameter
+			for _, e := range x.Edges {
+				q := toParam(e, d+1)
+				if q == nil || (p != nil && q != p) {
+					return nil
+				}
+				p = q
+			}
+			return p
+		}
+		return nil
+	}
+	prm := toParam(arg, 0)
+	if prm == nil {
+		return ""
+	}
+	idx := -1
+	for i, q := range fn.Params {
+		if q == prm {
+			idx = i
+		}
+	}
+	if idx < 0 {
+		return ""
+	}
+	var toCall func(v ssa.Value, d int) string
+	toCall = func(v ssa.Value, d int) string {
+		if d > 6 {
+			return ""
+		}
+		switch x := v.(type) {
+		case *ssa.Call:
+			if g := x.Call.StaticCallee(); g != nil {
+				k := g.Name()
+				if g.Signature.Recv() != nil {
+					if nm := named(g.Signature.Recv().Type()); nm != nil {
+						k = nm.Obj().Name() + "." + g.Name()
+					}
+				}
+				if producers[k] != "" {
+					return k
+				}
+			}
+		case *ssa.Extract:
+			return toCall(x.Tuple, d+1)
+		case *ssa.Phi:
+			res := ""
+			for _, e := range x.Edges {
+				r := toCall(e, d+1)
+				if r == "" || (res != "" && r != res) {
+					return ""
+				}
+				res = r
+			}
+			return res
+		}
+		return ""
+	}
+	res, n := "", 0
+	for _, caller := range c.srcFuncs("interp") {
+		bad := false
+		allInstrs(caller, func(in ssa.Instruction) {
+			ci, ok := in.(ssa.CallInstruction)
+			if !ok || ci.Common().StaticCallee() != fn || idx >= len(ci.Common().Args) {
+				return
+			}
+			n++
+			r := toCall(ci.Common().Args[idx], 0)
+			if r == "" || (res != "" && r != res) {
+				bad = true
+			}
+			res = r
+		})
+		if bad {
+			return ""
+		}
+	}
+	if n == 0 {
+		return ""
+	}
+	return res
 }
